@@ -100,6 +100,28 @@ Theorem C05_tiers_agree :
 Proof. exact C05_tiers_agree_proof. Qed.
 Print Assumptions C05_tiers_agree.
 
+(* The scanner composed with the point get, over the world: the rows of every scan RPC are what the
+   world serves at that moment (a blocking lock answers "locked", without a value), a locked pair is
+   resolved by the point get of the same snapshot (resolveCurrentLock -> snapshot.get: status checks,
+   classification, lock resolution, the shared ignored set — all of it changing the world for the later
+   RPCs), region layouts change between the RPCs, RPCs are retried.  For every world with a sane
+   transaction table, every layout sequence, every retry schedule with at most R retries: the scan ends
+   within |P| + |T| + 2 + R scan RPCs (each point get within patience + 2 rounds) and returns exactly the
+   specification on the final truth, in both directions. *)
+Theorem C05_world_scan :
+  forall (w : world) (ts : N) (lo hi : key) (B gfuel : nat) (ko rv : bool)
+         (retry : nat -> option retry_kind) (R : nat) (lay : nat -> layout) (P : list key),
+    txs_ok (w_txns w) ts ->
+    let T := final_truth w in
+    tsorted T -> (forall i, incl (lay i) P) -> bounded_retry retry 0 R ->
+    (patience (w_txns w) + 2 <= gfuel)%nat ->
+    (rv = true -> forall e, In e T -> fst e <> []) ->
+    exists out,
+      wscan (length P + length T + 2 + R) gfuel B ko ts w retry lay lo hi rv = Done out /\
+      map (canon ko) out = map (canon ko) (if rv then rev (expected ts lo hi T) else expected ts lo hi T).
+Proof. exact C05_world_scan_proof. Qed.
+Print Assumptions C05_world_scan.
+
 (* resolveLocks' decision: Ignore only if rolled back, committed above the caller's ts, or min
    commit ts pushed; Access only if committed at or below ts; a finished transaction is never
    waited for; the store ignores locks with start > ts and pessimistic / lock-only locks. *)
@@ -231,3 +253,15 @@ Example ex_refused :
         [CGet [97]; CGet [97]; CBatchGet [[97]; [98]]; CSetTS 30; CGet [97]; CBatchGet [[97]]]
   = [RRefused; RRefused; RRefused; RUnit; RGet (Some [1]); RBatch [([97], Some [1])]].
 Proof. vm_compute. reflexivity. Qed.
+
+(* the scanner over ex_world at ts 50: a (secondary of a transaction committed at 30) and c (a live
+   transaction that commits at 60 after two more status checks) answer "locked" and are resolved by point
+   gets, b's lock is rolled back, d's pessimistic and e's later lock never block, f's pushable lock is
+   ignored; regions change between the RPCs and the second RPC is retried *)
+Example ex_world_scan :
+  wscan 12 10 2 false 50 ex_world (fun i => if Nat.eqb i 1 then Some RetryRespLocked else None)
+        (fun i => if Nat.eqb i 0 then [[99]] else [[100]; [102]]) [] [] false
+  = Done [([97], [2]); ([98], [3]); ([100], [5]); ([101], [6]); ([102], [8])]
+  /\ wscan 12 10 3 false 50 ex_world (fun _ => None) (fun _ => [[100]]) [98] [] true
+  = Done [([102], [8]); ([101], [6]); ([100], [5]); ([98], [3])].
+Proof. split; vm_compute; reflexivity. Qed.
